@@ -117,6 +117,22 @@ def run(replay=None):
                 events.append(ev)
                 byid[eid] = (text, which, toks)
                 rep.clause('out:' + out)
+    # ---- the tree assigned to a text does not depend on what was parsed before: re-parse an early sample at the very end
+    early = [ev for ev in events if ev['kind'] == 'accept' and byid[ev['id']][1] == 'pkg'][:: max(1, len(events) // 600)][:600]
+    for ev in early:
+        text, which, toks = byid[ev['id']]
+        out, obj = call_parser(ev['entry'], text, which)
+        sid += 1
+        first = dict(ev)
+        eid += 1
+        first['id'], first['sid'] = eid, sid
+        byid[eid] = (text, which, toks)
+        events.append(first)
+        eid += 1
+        events.append({'id': eid, 'sid': sid, 'kind': 'accept', 'entry': ev['entry'], 'expected': ev['expected'], 'out': out,
+                       'observed': project(obj, ids=False) if out == 'ast' else {'cls': 'None'}})
+        byid[eid] = (text + '   [parsed again at the end of the run]', which, toks)
+    rep.count('reparsed_at_end', len(early))
     # ---- reject side: token mutants outside the permissive bounded language (set complement)
     L = 5 if thorough else 4
     for start, entry in ((0, 'expression'), (26, 'predicate')):
